@@ -64,6 +64,17 @@ fn classify(buf: &[u8]) -> Result<Vec<Region>, String> {
                 push(infos + i * 256, infos + i * 256 + 38, "pack-info(checked)");
                 push(infos + i * 256 + 38, infos + (i + 1) * 256, "location(exempt)");
             }
+        } else if k == 'c' {
+            // content-info table and cluster pointers are the big checked blocks of a content pack
+            let info_pos = off + u64::from_le_bytes(buf[off + 64..off + 72].try_into().unwrap()) as usize;
+            let ptr_pos = off + u64::from_le_bytes(buf[off + 72..off + 80].try_into().unwrap()) as usize;
+            if off + 128 <= ptr_pos && ptr_pos <= info_pos && info_pos <= cip {
+                push(off + 128, ptr_pos, "body");
+                push(ptr_pos, info_pos, "cluster-ptrs");
+                push(info_pos, cip, "info-table");
+            } else {
+                push(off + 128, cip, "body");
+            }
         } else {
             push(off + 128, cip, "body");
         }
@@ -141,6 +152,17 @@ fn container_set(sub: &str, thorough: bool) -> Vec<(String, String, Comp, Packag
             v.push(("many-none-one".into(), "many".into(), Comp::None, Packaging::OneFile, false));
         }
     }
+    // a directory pack above 4 KiB (mmapped by its handle): alterations after the handle was opened
+    if sub == "c04" {
+        v.push(("big-none-sep".into(), "big".into(), Comp::None, Packaging::NoConcat, false));
+        if thorough {
+            v.push(("big-zstd-one".into(), "big".into(), Comp::Zstd(5), Packaging::OneFile, false));
+        }
+    }
+    // a checked block above 64 KiB (content-info table of 17000 contents)
+    if sub == "c05" || sub == "c06" {
+        v.push(("huge-none-sep".into(), "huge".into(), Comp::None, Packaging::NoConcat, false));
+    }
     // concat of the three separate files
     v.push(("multi-zstd-concat".into(), "multi".into(), Comp::Zstd(5), Packaging::NoConcat, true));
     if thorough {
@@ -179,6 +201,24 @@ fn build_set(base: &Path, sub: &str, thorough: bool) -> Result<Vec<ContainerDesc
             }
             files = vec!["cat.jbk".into()];
         }
+        if sub == "c04" {
+            // CRC block map from the independent Python decoder
+            let verif = std::env::var("VERIF_DIR").unwrap_or_else(|_| "/verif".into());
+            let codec = std::env::current_exe().unwrap().with_file_name("codec");
+            let o = std::process::Command::new("python3")
+                .arg(format!("{verif}/indep/jbkdecode.py"))
+                .arg(dir.join(&files[0]))
+                .arg("--codec")
+                .arg(codec)
+                .arg("--blocks")
+                .output()
+                .map_err(|e| format!("jbkdecode: {e}"))?;
+            let text = String::from_utf8_lossy(&o.stdout).to_string();
+            if !text.contains("\"blocks\"") {
+                return Err(format!("jbkdecode --blocks failed on {name}: {} {}", text.chars().take(200).collect::<String>(), String::from_utf8_lossy(&o.stderr).chars().take(200).collect::<String>()));
+            }
+            std::fs::write(base.join(format!("{name}.blocks.json")), text).map_err(|e| e.to_string())?;
+        }
         out.push(ContainerDesc { name, shape: shape_name, files });
     }
     let idx: Vec<J> = out.iter().map(|c| json!({"name": c.name, "shape": c.shape, "files": c.files})).collect();
@@ -215,6 +255,12 @@ enum Alt {
     CutFront { len: usize },
     /// the file is absent (a companion file of a multi-file container went missing)
     Remove,
+    /// flip a byte and recompute the CRC of the block that holds it (block start, payload length):
+    /// only the pack's blake3 can notice
+    XorFix { pos: usize, mask: u8, block: usize, len: usize },
+    /// the container is opened and checked first; the byte is then altered in place and the same
+    /// handles are checked again
+    AfterOpen { pos: usize, mask: u8 },
 }
 
 impl Alt {
@@ -229,6 +275,8 @@ impl Alt {
             Alt::NonJbk { kind } => json!({"nonjbk": kind}),
             Alt::CutFront { len } => json!({"cutfront": len}),
             Alt::Remove => json!("remove"),
+            Alt::XorFix { pos, mask, block, len } => json!({"xorfix": [pos, mask, block, len]}),
+            Alt::AfterOpen { pos, mask } => json!({"afteropen": [pos, mask]}),
         }
     }
     fn apply(&self, buf: &mut Vec<u8>, seed: u64) {
@@ -250,6 +298,12 @@ impl Alt {
                 buf.drain(..(*len).min(buf.len()));
             }
             Alt::Remove => {}
+            Alt::AfterOpen { .. } => {} // applied later, in place
+            Alt::XorFix { pos, mask, block, len } => {
+                buf[*pos] ^= mask;
+                let crc = indep::crc32c_jbk(&buf[*block..*block + *len]);
+                buf[*block + *len..*block + *len + 4].copy_from_slice(&crc.to_be_bytes());
+            }
             Alt::Append { len, kind } => {
                 let extra: Vec<u8> = match kind {
                     0 => vec![0; *len],
@@ -303,6 +357,8 @@ struct Loaded {
     desc: ContainerDesc,
     bytes: Vec<Vec<u8>>,
     regions: Vec<Vec<Region>>,
+    /// CRC blocks per file: (start, payload length), from the independent Python decoder
+    blocks: Vec<Vec<(usize, usize)>>,
 }
 
 fn load_all(base: &Path) -> Vec<Loaded> {
@@ -311,7 +367,21 @@ fn load_all(base: &Path) -> Vec<Loaded> {
         .map(|d| {
             let bytes: Vec<Vec<u8>> = d.files.iter().map(|f| std::fs::read(base.join(&d.name).join(f)).expect("pristine file")).collect();
             let regions = bytes.iter().map(|b| classify(b).unwrap_or_default()).collect();
-            Loaded { desc: d, bytes, regions }
+            let mut blocks: Vec<Vec<(usize, usize)>> = d.files.iter().map(|_| vec![]).collect();
+            if let Ok(t) = std::fs::read_to_string(base.join(format!("{}.blocks.json", d.name))) {
+                if let Ok(j) = serde_json::from_str::<J>(&t) {
+                    for b in j["blocks"].as_array().cloned().unwrap_or_default() {
+                        if let Some(fi) = d.files.iter().position(|f| Some(f.as_str()) == b[0].as_str()) {
+                            blocks[fi].push((b[1].as_u64().unwrap() as usize, b[2].as_u64().unwrap() as usize));
+                        }
+                    }
+                }
+            }
+            for b in blocks.iter_mut() {
+                b.sort();
+                b.dedup();
+            }
+            Loaded { desc: d, bytes, regions, blocks }
         })
         .collect()
 }
@@ -323,9 +393,11 @@ fn enumerate(sub: &str, thorough: bool, set: &[Loaded]) -> Vec<Case> {
             let n = buf.len();
             match sub {
                 "c04" => {
+                    let bigc = l.desc.shape == "big";
                     for r in &l.regions[fi] {
                         let covered = !r.class.ends_with("footer") && r.pack_kind != 'C';
-                        if !covered {
+                        if !covered || bigc {
+                            // the big container only serves the CRC-fixed and after-open tiers below
                             continue;
                         }
                         for pos in r.start..r.end.min(n) {
@@ -342,6 +414,39 @@ fn enumerate(sub: &str, thorough: bool, set: &[Loaded]) -> Vec<Case> {
                                 }
                                 s += len;
                             }
+                        }
+                    }
+                    // CRC-consistent alterations: only the blake3 stands between them and a passing check
+                    for &(bs, bl) in &l.blocks[fi] {
+                        for pos in (bs..bs + bl).step_by(if bigc && !thorough { 7 } else { 1 }) {
+                            // bytes covered by the blake3 only: the check block is not covered by the
+                            // checksum it carries (rewriting its kind byte to "no check" together with its
+                            // CRC is a downgrade the format allows; noted in DESIGN.md, outside C04)
+                            let covered = l.regions[fi].iter().any(|r| r.start <= pos && pos < r.end && !r.class.ends_with("footer") && !r.class.ends_with("check-block") && r.pack_kind != 'C' && !r.class.contains("exempt"));
+                            if !covered {
+                                continue;
+                            }
+                            let masks: &[u8] = if thorough { &[0x01, 0x80, 0xff] } else { &[0x01] };
+                            for &mask in masks {
+                                v.push(Case { container: ci, file: fi, alt: Alt::XorFix { pos, mask, block: bs, len: bl } });
+                            }
+                        }
+                    }
+                    // alteration after the handles were opened and checked once (file-backed and
+                    // mmapped packs only: packs below 4 KiB are private copies of their handle)
+                    for r in &l.regions[fi] {
+                        if r.class.ends_with("footer") || r.class.ends_with("check-block") || r.pack_kind == 'C' || r.class.contains("exempt") {
+                            continue;
+                        }
+                        let pack_len: usize = l.regions[fi].iter().filter(|x| x.pack_uuid == r.pack_uuid).map(|x| x.end - x.start).sum();
+                        if r.pack_kind != 'c' && pack_len < 4096 {
+                            continue;
+                        }
+                        let step = if thorough { 3 } else { 13 };
+                        let mut pos = r.start;
+                        while pos < r.end.min(n) {
+                            v.push(Case { container: ci, file: fi, alt: Alt::AfterOpen { pos, mask: 0x10 } });
+                            pos += step;
                         }
                     }
                     if thorough && l.desc.shape == "small" {
@@ -362,6 +467,24 @@ fn enumerate(sub: &str, thorough: bool, set: &[Loaded]) -> Vec<Case> {
                                     }
                                 }
                             }
+                        }
+                    }
+                }
+                "c05" | "c06" if l.desc.shape == "huge" => {
+                    // only the big tables (every `step`-th byte) and the headers: the rest of this
+                    // container is like the others
+                    let step = if thorough { 8 } else { 64 };
+                    for r in &l.regions[fi] {
+                        let big = r.class.ends_with("info-table") || r.class.ends_with("cluster-ptrs");
+                        if !big && !r.class.ends_with("header") {
+                            continue;
+                        }
+                        let mut pos = r.start;
+                        while pos < r.end.min(n) {
+                            for mask in [0x01u8, 0xff] {
+                                v.push(Case { container: ci, file: fi, alt: Alt::Xor { pos, mask } });
+                            }
+                            pos += if big { step } else { 1 };
                         }
                     }
                 }
@@ -509,6 +632,54 @@ fn run_case(set: &[Loaded], case: &Case, scratch: &Path, seed: u64, pristine_dum
     let mut opts = opts_for(&logical);
     opts.with_manifest = true;
     let mut panics: Vec<String> = vec![];
+    if let Alt::AfterOpen { pos, mask } = case.alt {
+        // handles first, alteration afterwards, same handles checked again
+        let region = l.regions[case.file].iter().find(|r| r.start <= pos && pos < r.end).cloned();
+        let r = jbkmc::catch(|| -> Result<J, String> {
+            use jubako::Pack;
+            let container = jubako::reader::Container::new(&entry).map_err(|e| e.to_string())?;
+            let filepack = jubako::tools::open_pack(&target).map_err(|e| e.to_string())?;
+            let pack: Option<Box<dyn Pack>> = match &region {
+                Some(r) if r.pack_kind != 'C' => {
+                    let uuid = uuid::Uuid::parse_str(&r.pack_uuid).unwrap();
+                    let reader = filepack.get_pack_reader(&uuid).ok_or("pack not listed")?;
+                    Some(match r.pack_kind {
+                        'm' => Box::new(jubako::reader::ManifestPack::new(reader).map_err(|e| e.to_string())?) as Box<dyn Pack>,
+                        'd' => Box::new(jubako::reader::DirectoryPack::new(reader).map_err(|e| e.to_string())?),
+                        _ => Box::new(jubako::reader::ContentPack::new(reader).map_err(|e| e.to_string())?),
+                    })
+                }
+                _ => None,
+            };
+            let first = (container.check().map_err(|e| e.to_string())?, filepack.check().map_err(|e| e.to_string())?, pack.as_ref().map(|p| p.check().unwrap_or(false)).unwrap_or(true));
+            if first != (true, true, true) {
+                return Err(format!("MACHINERY pristine checks are {first:?}"));
+            }
+            {
+                use std::io::{Seek, SeekFrom, Write};
+                let mut f = std::fs::OpenOptions::new().write(true).open(&target).map_err(|e| e.to_string())?;
+                f.seek(SeekFrom::Start(pos as u64)).map_err(|e| e.to_string())?;
+                f.write_all(&[l.bytes[case.file][pos] ^ mask]).map_err(|e| e.to_string())?;
+                f.sync_all().ok();
+            }
+            let s = |r: jubako::Result<bool>| match r {
+                Ok(true) => "true".to_string(),
+                Ok(false) => "false".to_string(),
+                Err(e) => format!("err: {}", e.to_string().chars().take(60).collect::<String>()),
+            };
+            Ok(json!({"container": s(container.check()), "file": s(filepack.check()), "pack": pack.as_ref().map(|p| s(p.check())).unwrap_or_else(|| "n/a".into())}))
+        });
+        let (check, err) = match r {
+            Ok(Ok(c)) => (c, None),
+            Ok(Err(e)) => (json!({"container": "err", "file": "err", "pack": "err"}), Some(e)),
+            Err(p) => (json!({"container": "panic", "file": "panic", "pack": "panic"}), Some(format!("panic {p}"))),
+        };
+        return json!({
+            "panics": [], "diffs": [], "check": check, "opened": true,
+            "region": format!("{}(altered after the handles were opened)", region.map(|r| r.class).unwrap_or_else(|| "n/a".into())),
+            "error": err,
+        });
+    }
     // (a) everything a user can read
     let dump = match jbkmc::catch(|| dump_container(&entry, &opts)) {
         Ok(d) => d,
@@ -533,7 +704,7 @@ fn run_case(set: &[Loaded], case: &Case, scratch: &Path, seed: u64, pristine_dum
     }
     // the pack that holds the altered byte
     let pos = match &case.alt {
-        Alt::Xor { pos, .. } | Alt::Set { pos, .. } => Some(*pos),
+        Alt::Xor { pos, .. } | Alt::Set { pos, .. } | Alt::XorFix { pos, .. } | Alt::AfterOpen { pos, .. } => Some(*pos),
         Alt::Pair { a, .. } => Some(*a),
         Alt::Fill { start, .. } => Some(*start),
         _ => None,
@@ -556,6 +727,9 @@ fn run_case(set: &[Loaded], case: &Case, scratch: &Path, seed: u64, pristine_dum
                 }
             }
         }
+    }
+    if let Alt::XorFix { .. } = case.alt {
+        region_class = format!("{region_class}(block CRC recomputed)");
     }
     json!({
         "panics": panics,
@@ -625,7 +799,7 @@ fn main() {
         worker(&args);
     }
     let (prop, rule) = match args.sub.as_str() {
-        "c04" => ("C04", "every byte inside a pack's checked range or check block (classified by the independent decoder) x xor masks {01,80,ff}, every aligned 4/16-byte run zeroed, (thorough) pairs of covered positions on the small containers; oracle: Pack::check of that pack, ContainerPack::check of the file and Container::check each answer false or an error; non-trivial = the altered byte is covered by a checksum; distinct by (container,file,alteration)"),
+        "c04" => ("C04", "every byte inside a pack's checked range or check block (classified by the independent decoder) x xor masks {01,80,ff}, every aligned 4/16-byte run zeroed, every covered byte inside a CRC block flipped WITH the block CRC recomputed (block map from the independent Python decoder: only the blake3 can notice), every 13th (thorough: 3rd) covered byte of the file-backed / mmapped packs altered in place AFTER the handles were opened and checked once, (thorough) pairs of covered positions on the small containers; oracle: Pack::check of that pack, ContainerPack::check of the file and Container::check each answer false or an error; non-trivial = the altered byte is covered by a checksum; distinct by (container,file,alteration)"),
         "c05" => ("C05", "every byte of every file x {xor 01, xor 80, xor ff, set 00, set ff}, zero/ff-filled ranges of length {4,64} (thorough {2,4,8,64} at every start, plus pairs inside 64-byte blocks); oracle: node-by-node comparison of the full logical dump with the pristine dump (error nodes accepted; content hashes may differ only when check() is not true)"),
         "c06" => ("C06", "every truncation length, every position x {01,80,ff}, zeroed ranges {4,64,4096}, appended garbage {1,63,64,65,4096} x 4 kinds, 12 non-jubako inputs, files cut at the front, companion files removed; each case runs the whole reader (open, dump of every entry/value/content, three checks) in a worker process; oracle: no panic, no abort/signal, no hang"),
         other => {
@@ -762,6 +936,11 @@ fn main() {
                 let panics: Vec<String> = v["panics"].as_array().map(|a| a.iter().map(|x| x.as_str().unwrap_or("").to_string()).collect()).unwrap_or_default();
                 match prop {
                     "C04" => {
+                        if let Some(e) = v["error"].as_str() {
+                            if e.starts_with("MACHINERY") {
+                                rep.machinery_errors.push(format!("{e} in {cj}"));
+                            }
+                        }
                         let exempt = region.contains("exempt");
                         let chk = &v["check"];
                         let mut bad = vec![];
